@@ -35,14 +35,27 @@ pub fn c17_unsigned_integers_become_uint() {
 }
 #[cfg_attr(kani, kani::proof)]
 #[cfg_attr(kani, kani::unwind(6))]
-pub fn c17_floats_bool_unit_option() {
+pub fn c17_f64_becomes_double() {
     let f: f64 = any();
-    let g: f32 = any();
-    let b: bool = any();
     assert!(matches!(to_value(f), Ok(Value::Float(x)) if x.to_bits() == f.to_bits()));
+}
+#[cfg_attr(kani, kani::proof)]
+#[cfg_attr(kani, kani::unwind(6))]
+pub fn c17_f32_becomes_double() {
+    let g: f32 = any();
     assert!(matches!(to_value(g), Ok(Value::Float(x)) if x.to_bits() == (g as f64).to_bits()));
+}
+#[cfg_attr(kani, kani::proof)]
+#[cfg_attr(kani, kani::unwind(6))]
+pub fn c17_bool_and_unit() {
+    let b: bool = any();
     assert!(matches!(to_value(b), Ok(Value::Bool(x)) if x == b));
     assert!(matches!(to_value(()), Ok(Value::Null)));
+}
+#[cfg_attr(kani, kani::proof)]
+#[cfg_attr(kani, kani::unwind(6))]
+pub fn c17_option_is_null_or_the_value() {
+    let b: bool = any();
     let o: Option<i32> = if b { Some(any()) } else { None };
     match (o, to_value(o)) {
         (None, Ok(Value::Null)) => {}
